@@ -16,6 +16,7 @@ package syncer
 import (
 	"context"
 	"encoding/binary"
+	"errors"
 	"encoding/json"
 	"fmt"
 	"os"
@@ -31,6 +32,7 @@ import (
 	"time"
 
 	"github.com/mgtv-tech/redis-GunYu/config"
+	"github.com/mgtv-tech/redis-GunYu/pkg/common"
 	"github.com/mgtv-tech/redis-GunYu/pkg/store"
 	usync "github.com/mgtv-tech/redis-GunYu/pkg/sync"
 	"github.com/mgtv-tech/redis-GunYu/verifshim/mc"
@@ -55,6 +57,7 @@ type c05Cfg struct {
 	Crc     bool   `json:"crc,omitempty"`   // config Channel.VerifyCrc (disk: readers verify sealed segments / snapshots)
 	Slots   int    `json:"slots,omitempty"` // readers a sequence may hold open (0 = 2)
 	Alpha   string `json:"alpha,omitempty"` // "" = full alphabet | "r3" = reduced alphabet of the three-reader configuration | "big" = reduced alphabet of the large-block configuration
+	Foot    string `json:"foot,omitempty"`  // last 8 snapshot bytes: "" = CRC-64 of the rest | "zero" = all zero (source with rdbchecksum no) | "bad" = a wrong checksum
 	Shift   int64  `json:"shift,omitempty"` // first offset = 96 + Shift (-91 => 5: rdb.left-size is negative; -96 => 0: every "0 means none" default is a real offset)
 }
 
@@ -73,6 +76,9 @@ func (c c05Cfg) String() string {
 	}
 	if c.Shift != 0 {
 		s += fmt.Sprintf(",base=%d", c.base())
+	}
+	if c.Foot != "" {
+		s += ",foot=" + c.Foot
 	}
 	return s
 }
@@ -123,10 +129,21 @@ func c05Bytes(hist, kind int, from, n int64) []byte {
 func c05SnapBytes(hist int, size int64) []byte {
 	b := c05Bytes(hist, 1, 0, size)
 	if size > 8 {
-		binary.LittleEndian.PutUint64(b[size-8:], ref.RDBCRC64(0, b[:size-8]))
+		switch c05Foot {
+		case "zero":
+			binary.LittleEndian.PutUint64(b[size-8:], 0)
+		case "bad":
+			binary.LittleEndian.PutUint64(b[size-8:], ref.RDBCRC64(0, b[:size-8])^0x5a5a)
+		default:
+			binary.LittleEndian.PutUint64(b[size-8:], ref.RDBCRC64(0, b[:size-8]))
+		}
 	}
 	return b
 }
+
+// c05Foot is the footer shape of the execution that is running (set from its configuration;
+// executions of one process run one after the other).
+var c05Foot string
 
 // ---------------------------------------------------------------------------
 // environment of one execution
@@ -205,6 +222,7 @@ type c05Env struct {
 	allRd    []*c05Reader
 
 	wedged    func(mc.Result) // reports a wedged execution and never returns
+	refusals  int // opens of the stored snapshot refused with a corruption error (footer shapes, verification on)
 	graced    bool
 	leakedRdbReader bool // a never-started disk snapshot reader was closed by its owner (still registered in the data set)
 	gen       uint64 // vpoll generation of this execution
@@ -1236,6 +1254,13 @@ func (e *c05Env) openAt(x int64, probe bool, label string) *c05Reader {
 		return nil
 	}
 	if err != nil || cr == nil {
+		if valid && e.refusedSnapshot(x, err) {
+			// verification is on and the stored snapshot has no matching checksum trailer: being
+			// refused with a corruption error at open is the accepted answer (what is not: being
+			// handed out and then not delivered)
+			e.refusals++
+			return nil
+		}
 		if valid {
 			e.fail("an offset reported valid cannot be opened", "valid-unreadable", map[string]interface{}{"offset": x, "error": fmt.Sprint(err), "label": label})
 		}
@@ -1334,6 +1359,15 @@ func (e *c05Env) dropReader(r *c05Reader) {
 			e.readers[i] = nil
 		}
 	}
+}
+
+// refusedSnapshot: the open of the complete stored snapshot failed with ErrCorrupted in a
+// configuration whose snapshot trailer is not a matching checksum and verification is on.
+func (e *c05Env) refusedSnapshot(x int64, err error) bool {
+	if err == nil || !e.cfg.Crc || e.cfg.Foot == "" || e.snap == nil || !e.snap.complete || !errors.Is(err, common.ErrCorrupted) {
+		return false
+	}
+	return x <= e.snap.left && !(e.aofStart >= 0 && x >= e.aofStart && x <= e.right)
 }
 
 // openTargets: candidate offsets for "open reader", deduplicated, in a fixed order.
@@ -1776,7 +1810,7 @@ func (e *c05Env) probes() {
 		}
 		r := e.openAt(x, true, "probe")
 		if r == nil {
-			if e.viol == nil && v.rdbL >= 0 && x < v.rdbL {
+			if e.viol == nil && v.rdbL >= 0 && x < v.rdbL && e.refusals == 0 {
 				e.fail("a snapshot is offered but cannot be opened", "rdb-offered-unreadable", map[string]interface{}{"offset": x, "rdb": []int64{v.rdbL, v.rdbS}})
 			}
 			continue
@@ -1913,6 +1947,7 @@ func c05Exec(t *testing.T, scn c05Scenario, tier string) c05Outcome {
 		config.GetSyncerConfig().Channel = &config.ChannelConfig{}
 	}
 	config.GetSyncerConfig().Channel.VerifyCrc = scn.Cfg.Crc
+	c05Foot = scn.Cfg.Foot
 	// The bubble runs on its own goroutine so that a wedged execution (dead-lock
 	// inside the cache) can be abandoned: its goroutines stay blocked for ever.
 	resCh := make(chan c05Outcome, 2)
@@ -2138,6 +2173,14 @@ func c05Configs(tier string) []c05Cfg {
 		out = append(out, c05Cfg{Backend: "disk", L: 8, Max: big, Slots: 3, Alpha: "r3"}, c05Cfg{Backend: "mem", L: 8, Max: big, Slots: 3, Alpha: "r3"},
 			c05Cfg{Backend: "disk", L: 8, Max: big, Slots: 3, Alpha: "r3", Crc: true}, c05Cfg{Backend: "mem", L: 8, Max: big, Slots: 3, Alpha: "r3", Shift: -96})
 	}
+	// snapshot trailer shapes (all-zero = source with rdbchecksum no, wrong checksum) x
+	// verification; shallow: what matters is that a stored snapshot that is handed out is
+	// delivered completely, whatever its last 8 bytes are
+	out = append(out, c05Cfg{Backend: "disk", L: 8, Max: big, Crc: true, Foot: "zero"}, c05Cfg{Backend: "disk", L: 8, Max: big, Crc: true, Foot: "bad"},
+		c05Cfg{Backend: "disk", L: 8, Max: big, Foot: "zero"}, c05Cfg{Backend: "mem", L: 8, Max: big, Foot: "zero"})
+	if tier == "thorough" {
+		out = append(out, c05Cfg{Backend: "disk", L: 8, Max: big, Foot: "bad"}, c05Cfg{Backend: "disk", L: 9000, Max: 1 << 30, Alpha: "big", Crc: true, Foot: "zero"})
+	}
 	// large blocks: L = 9000 (appends 9000/9001/18003 B, snapshot 18003 B, segments > 8 KiB),
 	// reduced alphabet, one level less
 	out = append(out, c05Cfg{Backend: "disk", L: 9000, Max: 1 << 30, Alpha: "big"}, c05Cfg{Backend: "disk", L: 9000, Max: 1 << 30, Alpha: "big", Crc: true},
@@ -2228,6 +2271,9 @@ func runC05(t *testing.T, rep *mc.Reporter) {
 		}
 		if cfg.Alpha == "big" {
 			depth = baseDepth - 1
+		}
+		if cfg.Foot != "" && cfg.Alpha == "" {
+			depth = baseDepth - 2
 		}
 		seen := map[string]bool{}
 		var states, transitions int64
